@@ -132,19 +132,158 @@ theorem eval_str_right (c : Ctx) : eval c (.str_ (.value .right)) = .ok (V.fresh
   simp only [eval, Ctx.side, strOfV]
   cases c.right.v <;> rfl
 
-/-- `re.search(unwrap_value(regex.value), str(text.value))` compared with `None` -/
-theorem eval_regex (c : Ctx) (op : CmpOp) :
-    eval c (.cmp op (.reSearch (.unwrap (.value .left)) (.str_ (.value .right))) .noneLit) =
+theorem eval_reSearch_eq (c : Ctx) (p t : CondExpr) :
+    eval c (.reSearch p t) =
+      match eval c p, eval c t with
+      | .ok x, .ok y =>
+        if x.px then .error .raised
+        else match x.v, y.v with
+          | .str ps, .str ts =>
+            if y.px then .error .raised
+            else (c.search ps ts).map fun m => if m then V.fresh (.obj 1) else V.fresh .none
+          | _, _ => .error .raised
+      | .error e, _ => .error e
+      | _, .error e => .error e := by
+  rw [eval]; rfl
+
+theorem eval_cmp_eq (c : Ctx) (op : CmpOp) (a b : CondExpr) :
+    eval c (.cmp op a b) =
+      match eval c a with
+      | .error e => .error e
+      | .ok x =>
+        match eval c b with
+        | .error e => .error e
+        | .ok y => evalCmp op x y := by
+  rw [eval]; rfl
+
+/-- `re.search(unwrap_value(regex.value), str(text.value))` -/
+theorem eval_regex_search (c : Ctx) :
+    eval c (.reSearch (.unwrap (.value .left)) (.str_ (.value .right))) =
       match regexRel c with
-      | .ok m => evalCmp op (if m then V.fresh (.obj 1) else V.fresh .none) (V.fresh .none)
+      | .ok m => .ok (if m then V.fresh (.obj 1) else V.fresh .none)
       | .error e => .error e := by
-  rw [eval, eval, eval_str_right]
+  rw [eval_reSearch_eq, eval_str_right]
   simp only [eval, Ctx.side, regexRel, V.unwrapped, V.fresh]
   cases hl : c.left.v <;> simp
   case str ps =>
     cases hs : c.search ps (strOfV c c.right) with
     | error e => simp [Except.map]
     | ok m => cases m <;> simp [Except.map]
+
+/-- `... is None` / `... is not None` on the result of the search -/
+theorem eval_regex (c : Ctx) :
+    eval c (.cmp .is_ (.reSearch (.unwrap (.value .left)) (.str_ (.value .right))) .noneLit) =
+      (notR (regexRel c)).map V.ofBool ∧
+    eval c (.cmp .isNot (.reSearch (.unwrap (.value .left)) (.str_ (.value .right))) .noneLit) =
+      (regexRel c).map V.ofBool := by
+  rw [eval_cmp_eq, eval_cmp_eq, eval_regex_search]
+  cases h : regexRel c with
+  | error e => exact ⟨rfl, rfl⟩
+  | ok m => cases m <;> simp [eval, evalCmp, pyIs, V.fresh, V.ofBool, notR, Except.map]
+
+/-! ### output assertions -/
+
+theorem eval_param_exact (c : Ctx) : eval c (.param "exact_strings") = .ok (V.fresh c.exact) := by
+  rw [eval]
+  simp only [show ("exact_strings" == "exact_strings") = true from by decide, if_true]
+
+theorem eval_noneLit (c : Ctx) : eval c .noneLit = .ok (V.fresh .none) := by
+  rw [eval]
+
+theorem eval_output_left (c : Ctx) :
+    eval c (.output .left) = (c.output .left).map fun o => V.fresh (.str o) := by
+  rw [eval]
+
+theorem eval_equalityTest_eq (c : Ctx) (a b ex d : CondExpr) :
+    eval c (.equalityTest a b ex d) =
+      match eval c a, eval c b, eval c ex, eval c d with
+      | .ok x, .ok y, .ok e, .ok dd =>
+        match deltaOf dd.v with
+        | .error er => .error er
+        | .ok dv => (eqTest (truthy e.v) dv x.v y.v).map V.ofBool
+      | .error e, _, _, _ => .error e
+      | _, .error e, _, _ => .error e
+      | _, _, .error e, _ => .error e
+      | _, _, _, .error e => .error e := by
+  rw [eval]; rfl
+
+theorem eval_output_equality (c : Ctx) :
+    eval c (.equalityTest (.output .left) (.str_ (.value .right)) (.param "exact_strings") .noneLit) =
+      (outputRel c).map V.ofBool := by
+  rw [eval_equalityTest_eq, eval_output_left, eval_str_right, eval_param_exact, eval_noneLit]
+  unfold outputRel
+  cases h : c.output .left with
+  | error e => rfl
+  | ok o => simp [Except.map, V.fresh, deltaOf]
+
+theorem eval_ite_eq (c : Ctx) (t a b : CondExpr) :
+    eval c (.ite t a b) =
+      match eval c t with
+      | .error e => .error e
+      | .ok x => if truthy x.v then eval c a else eval c b := by
+  rw [eval]; rfl
+
+theorem eval_not_eq (c : Ctx) (a : CondExpr) :
+    eval c (.not_ a) =
+      match eval c a with
+      | .ok x => .ok (V.ofBool (!truthy x.v))
+      | .error e => .error e := by
+  rw [eval]; rfl
+
+theorem eval_lower_eq (c : Ctx) (a : CondExpr) :
+    eval c (.lower a) =
+      match eval c a with
+      | .error e => .error e
+      | .ok x =>
+        match x.v with
+        | .str s => if isAscii s then .ok (V.fresh (.str (s.map lowerC))) else .error .unmodelled
+        | _ => .error .raised := by
+  rw [eval]; rfl
+
+theorem truthy_bool (b : Bool) : truthy (.bool b) = b := rfl
+
+/-- `str(text.value) [.lower()] in self.get_output(execution) [.lower()]`, `in` and `not in` forms -/
+theorem eval_output_contains (c : Ctx) :
+    eval c (.ite (.not_ (.param "exact_strings"))
+        (.cmp .in_ (.lower (.str_ (.value .right))) (.lower (.output .left)))
+        (.cmp .in_ (.str_ (.value .right)) (.output .left))) = (outputContainsRel c).map V.ofBool ∧
+    eval c (.ite (.not_ (.param "exact_strings"))
+        (.cmp .notIn (.lower (.str_ (.value .right))) (.lower (.output .left)))
+        (.cmp .notIn (.str_ (.value .right)) (.output .left))) = (notR (outputContainsRel c)).map V.ofBool := by
+  rw [eval_ite_eq, eval_ite_eq, eval_not_eq, eval_param_exact]
+  simp only [eval_cmp_eq, eval_lower_eq, eval_str_right, eval_output_left, outputContainsRel, V.fresh, V.ofBool,
+    truthy_bool]
+  cases hex : truthy c.exact
+  · -- not exact: lower both
+    simp only [Bool.not_false, if_true, Bool.false_eq_true, if_false]
+    cases ha : isAscii (strOfV c c.right)
+    · simp [notR, Except.map]
+    · cases ho : c.output .left with
+      | error e => simp [Except.map, notR]
+      | ok o =>
+        cases hao : isAscii o
+        · simp [Except.map, notR, hao]
+        · simp [Except.map, evalCmp, vIn, pyIn, notR, V.ofBool, V.fresh, hao]
+  · simp only [Bool.not_true, Bool.false_eq_true, if_false, if_true]
+    cases ho : c.output .left with
+    | error e => simp [Except.map, notR]
+    | ok o => simp [Except.map, evalCmp, vIn, pyIn, notR, V.ofBool, V.fresh]
+
+/-- `re.search(str(text.value), self.get_output(execution))` compared with None -/
+theorem eval_output_regex (c : Ctx) :
+    eval c (.cmp .is_ (.reSearch (.str_ (.value .right)) (.output .left)) .noneLit) =
+      (notR (outputRegexRel c)).map V.ofBool ∧
+    eval c (.cmp .isNot (.reSearch (.str_ (.value .right)) (.output .left)) .noneLit) =
+      (outputRegexRel c).map V.ofBool := by
+  rw [eval_cmp_eq, eval_cmp_eq, eval_reSearch_eq, eval_str_right, eval_output_left, eval_noneLit]
+  unfold outputRegexRel
+  cases ho : c.output .left with
+  | error e => exact ⟨rfl, rfl⟩
+  | ok o =>
+    simp only [Except.map, V.fresh]
+    cases hs : c.search (strOfV c c.right) o with
+    | error e => simp [notR, Except.map]
+    | ok m => cases m <;> simp [evalCmp, pyIs, V.fresh, V.ofBool, notR, Except.map]
 
 theorem pyIs_none_right (x : V) (h : x.px = false) : pyIs x (V.fresh .none) = isNoneVal x.v := by
   unfold pyIs
